@@ -125,12 +125,17 @@ def source_hash(covers):
     return h.hexdigest()[:16], names
 
 
+def _ob_match(pattern: str, ob: Ob) -> bool:
+    import fnmatch
+    return fnmatch.fnmatch(ob.name, pattern) or pattern == f"{ob.module}:{ob.func}"
+
+
 def decide_crosshair(prop: str, ob: Ob, known: List[dict], replay_counter: List[int]):
     """Run one CrossHair obligation to a verdict, handling replay and known findings."""
     res = {"name": ob.name, "kind": "crosshair", "note": ob.note, "covers": list(ob.covers),
            "timeout_s": ob.timeout, "runs": [], "known_findings": []}
     extra_pre: List[str] = []
-    applicable = [k for k in known if k.get("obligation") in (ob.name, f"{ob.module}:{ob.func}", "*")]
+    applicable = [k for k in known if _ob_match(k.get("obligation", "*"), ob)]
     matched_once = set()
     for attempt in range(len(applicable) + 2):
         r = run_driver(ob, extra_pre=extra_pre)
@@ -196,7 +201,7 @@ def decide_crosshair(prop: str, ob: Ob, known: List[dict], replay_counter: List[
 def decide_call(prop: str, ob: Ob, known: List[dict], replay_counter: List[int]):
     """Engine B/C style obligation: a function that builds SMT queries from the live repo code,
     discharges them, replays models, and returns a JSON verdict itself."""
-    applicable = [k for k in known if k.get("obligation") in (ob.name, "*")]
+    applicable = [k for k in known if _ob_match(k.get("obligation", "*"), ob)]
     args = dict(ob.args)
     args["exclude"] = [k["predicate"] for k in applicable]
     cmd = [PY, "-m", "vlib.callrun", ob.module, ob.func, json.dumps(args)]
